@@ -6,8 +6,22 @@ func z(c string) sym { return sym{c, "Z"} }
 func s(c string) sym { return sym{c, "str"} }
 func b(c string) sym { return sym{c, "bool"} }
 
+// anchorSets: every file of this package may register more anchors from an
+// init() function (anchorSets = append(anchorSets, myAnchors)).
+var anchorSets []func() []anchor
+
 // anchors lists every guard that is regenerated from the source.
 func anchors() []anchor {
+	var all []anchor
+	for _, f := range anchorSets {
+		all = append(all, f()...)
+	}
+	return all
+}
+
+func init() { anchorSets = append(anchorSets, coreAnchors) }
+
+func coreAnchors() []anchor {
 	return []anchor{
 		// ---- message.go -------------------------------------------------
 		{Name: "g_event_type", File: "message.go", Recv: "Event", Func: "EventType", Kind: "body",
